@@ -1,8 +1,8 @@
 package main
 
 import (
-	"bytes"
 	"bufio"
+	"bytes"
 	"context"
 	"fmt"
 	"math"
@@ -305,7 +305,9 @@ func replyFloatAnn(d resp.RedisData) string {
 }
 
 // runExec: "R [dbs]" starts a fresh server.Manager; "X <keys|*|-> <argv hex...>" executes one command on it and appends
-//   => <t0> <t1> <reply-hex|NIL|PANIC|HANG> <dump> fl=<float annotations of argv> rf=<float annotations of the reply>
+//
+//	=> <t0> <t1> <reply-hex|NIL|PANIC|HANG> <dump> fl=<float annotations of argv> rf=<float annotations of the reply>
+//
 // After a PANIC/HANG the rest of the program (until the next R) is answered with SKIP.
 func runExec(args []string) {
 	in := bufio.NewScanner(os.Stdin)
